@@ -19,15 +19,23 @@ async def _replay(loop: Any, source: Any, proto_kwargs: dict) -> dict:
     def handler(msg: Any) -> None:
         msgs.append(msg)
 
+    pauses = {int(k): float(v) for k, v in (proto_kwargs.pop("pauses", None) or {}).items()}
     proto = ReadProtocol(handler, **proto_kwargs)
     orig = proto.pkt_received
+    holder: dict = {}
 
     def spy(pkt: Any) -> None:
         pkts.append(pkt)
         orig(pkt)
+        # the application pauses reading at this packet (as Engine._pause() does round a snapshot / restore) and resumes later
+        d = pauses.get(len(pkts))
+        if d is not None and "tr" in holder:
+            holder["tr"].pause_reading()
+            loop.call_later(d, holder["tr"].resume_reading)
 
     proto.pkt_received = spy  # type: ignore[method-assign]
     tr = FileTransport(source, proto, loop=loop)
+    holder["tr"] = tr
     await proto.wait_for_connection_made(timeout=5)
     lost: Any = "timeout"
     try:
